@@ -7,7 +7,7 @@ from values import QForall, ObjLV, Ptr
 import C18, C20
 
 PROP = 'C06'
-CONFIGS = [{'SIMUCELL3D_VERIF_CONTACT_MODEL_INDEX': 1}]
+CONFIGS = [{'SIMUCELL3D_VERIF_CONTACT_MODEL_INDEX': 1}, {'SIMUCELL3D_VERIF_CONTACT_MODEL_INDEX': 0}]
 I = z3.IntSort(); R = z3.RealSort()
 CM = 'contact_model_abstract.'
 AX = ('x', 'y', 'z')
@@ -286,6 +286,41 @@ def post_candidates(C):
     return out
 
 
+# ---- D4 for the node-face spring model (contact model 0): same loops, no normal rule, the rule is apply_contact_forces(c1, n, f) ------------------------
+def apply_contract():
+    def on_call(C, st):
+        from values import GuardedLog
+        st.ghost['resolved'] = st.ghost.get('resolved', GuardedLog()).add((C.val('c1').ref, C.arg('n').ref, C.val('f').ref))
+    return Contract('contact_node_face_via_spring::apply_contact_forces', PROP, frame=lambda C: [('*', None)], on_call=on_call, name='apply_contact_forces (any effect; call recorded)')
+
+
+def post_candidates_nf(C):
+    o = C.old
+    f = val(C, 'f').ref
+    c1 = val(C, 'c1').ref; c2 = o.f(f, 'face.owner_cell_')
+    n1 = lv(C, 'n')
+    boxes = o.sub(C.this, CM + 'face_aabb_lst_')
+    gid = o.f(f, 'face.global_face_id_')
+    p = o.v3(n1, 'node.pos_').comps()
+    inside = z3.And(*[z3.And(p[a] >= o.at(boxes, gid * 6 + a, 'real'), p[a] <= o.at(boxes, gid * 6 + 3 + a, 'real')) for a in range(3)])
+    log = C.post_state.ghost.get('resolved')
+    entries = log.entries if log is not None else []
+    called = z3.Or(*[z3.And(g_, a == c1, c == n1.ref, d == f) for (g_, (a, c, d)) in entries]) if entries else z3.BoolVal(False)
+    other = o.f(c1, 'cell.cell_id_') != o.f(c2, 'cell.cell_id_')
+    return [('a-face-of-another-cell-whose-box-contains-the-node-reaches-the-contact-rule', z3.Implies(z3.And(other, inside), called)),
+            ('a-face-of-the-same-cell-never-does', z3.Implies(z3.Not(other), z3.Not(called)))]
+
+
+def post_spring_ctor(C):
+    """the node-face spring model tests distances against its own cut-off: it must not exceed the padding of the boxes (D0, model 0)"""
+    n = C.new; sp = C.arg('sim_parameters')
+    ca = n.f(sp, C18.GSP + 'contact_cutoff_adhesion_'); cr = n.f(sp, C18.GSP + 'contact_cutoff_repulsion_')
+    mx = z3.If(ca > cr, ca, cr)
+    NF = 'contact_node_face_via_spring.'
+    return C18.post_contact_ctor(C) + [('own-cutoff-is-the-largest-cutoff', z3.And(n.f(C.this, NF + 'interaction_cutoff_') == mx, n.f(C.this, NF + 'interaction_cutoff_square_') == mx * mx)),
+                                       ('own-cutoff-does-not-exceed-the-box-padding', n.f(C.this, NF + 'interaction_cutoff_') <= n.f(C.this, CM + 'aabb_padding_'))]
+
+
 def pre_node_voxel(C):
     o = C.old
     g = grid(o, C.this)
@@ -342,6 +377,14 @@ def build(reg, cfg):
         reg.add(Contract('contact_node_node_via_coupling::resolve_all_contacts', PROP, pre=pre_node_voxel, post=post_node_voxel, slice_loop=1, prefix_loop=2,
                          safety={'bounds', 'wrap', 'narrowing'}, use=[flat_contract()],
                          name='contact_node_node_via_coupling::resolve_all_contacts::<voxel of the node> (D4)'))
+    if cfg['SIMUCELL3D_VERIF_CONTACT_MODEL_INDEX'] == 0:
+        reg.add(Contract('contact_node_face_via_spring::contact_node_face_via_spring', PROP, signature='global_simulation_parameters', pre=C18.pre_contact_ctor,
+                         post=post_spring_ctor, name='contact_node_face_via_spring::contact_node_face_via_spring (D0, model 0)'))
+        reg.add(Contract('contact_node_face_via_spring::resolve_contacts', PROP, pre=pre_candidates, post=post_candidates_nf, slice_loop=2,
+                         use=[apply_contract(), aabb_contract()], name='contact_node_face_via_spring::resolve_contacts::<candidate loop body> (D4, model 0)'))
+        reg.add(Contract('contact_node_face_via_spring::resolve_contacts', PROP, pre=pre_node_voxel, post=post_node_voxel, slice_loop=1, prefix_loop=2,
+                         safety={'bounds', 'wrap', 'narrowing'}, use=[flat_contract()],
+                         name='contact_node_face_via_spring::resolve_contacts::<voxel of the node> (D4, model 0)'))
     lemmas(reg)
 
 
@@ -357,10 +400,13 @@ EXPLANATION = ("Chain of contracts for the shipped contact model (node-node coup
                "candidate face of another cell whose box contains the node and which passes the model's normal rule reaches resolve_contact, "
                "faces of the same cell never do. Composition: node within the cut-off of a triangle => (D2 lemma, pad >= cut-off by D0) inside "
                "the face box => (monotonicity) its voxel is in the face's range => (D3) the face is in that voxel's list => (D4) presented to "
-               "the contact rule, whose own distance test (C05/C07) does the rest.")
+               "the contact rule, whose own distance test (C05/C07) does the rest. The whole chain is checked in two compile-time configurations: "
+               "contact model 1 (node-node coupling) and contact model 0 (node-face springs: D0 also for the derived constructor - its own cut-off "
+               "is the largest cut-off and does not exceed the box padding - and D4 for contact_node_face_via_spring::resolve_contacts).")
 ASSUMPTIONS = ["exact reals", "grid contracts (update_dimensions, get_voxel_index, place_object) are used as proved in C20",
                "live nodes lie inside the grid box: every live node is a vertex of a live face (C01) whose padded box is inside the global box (D1)",
                "for-loop semantics compose the per-iteration contracts (boxes stored at 6*i for every i; every voxel of the range visited)",
-               "contact models 0 and 2 share D0-D3 (same base class); their candidate loops are not under contract here"]
+               "contact model 2 shares D0-D3 (same base class); its candidate loop is not under contract here (models 1 and 0 are)",
+               "double -> float conversions round to nearest with a relative error of at most 2^-24 (normal range; overflow and subnormals not modelled); every other floating-point operation is exact-real"]
 UNVERIFIED = ["contact_node_face_via_spring::resolve_contacts and contact_face_face_via_coupling::resolve_all_contacts (candidate loops of the other two compile-time models)",
               "construction of face_lst_ / global_face_id_ in run() (face i of face_lst_ has global id i)"]
